@@ -1,12 +1,68 @@
 /-
-Driver operations for the Chain model (line protocol). Core Lean only.
-`handle st words` returns `none` when the first word is not one of this module's operations.
+Driver operations for the chain model (C01, C03, C05, C11, …). Core Lean only.
 -/
+import BHS.Model.Header
+import BHS.Spec.BestChain
+
 namespace Driver.Ops.Chain
+open BHS BHS.Chain BHS.Header
 
 structure S where
-  unit : Unit := ()
+  store : Store String := [genesisRow]
+  forbidden : List String := []
 
-def handle (_st : S) (_ws : List String) : Option (S × String) := none
+def cfgOf (st : S) : Cfg String := { hashOf := blockHash, forbidden := st.forbidden }
+
+def stName : St → String
+  | .lc => "LONGEST_CHAIN"
+  | .stale => "STALE"
+  | .orphan => "ORPHAN"
+
+def rowStr (r : Row String) : String :=
+  s!"{r.id},{r.hash},{r.prev},{r.merkle},{r.height},{r.version},{r.time},{r.bits},{r.nonce},{r.work},{r.cum},{stName r.st}"
+
+def sortStrs (l : List String) : List String := (l.toArray.qsort (· < ·)).toList
+
+def writeStr : Write String → String
+  | .setState hs st => s!"W setstate:{stName st}:{",".intercalate (sortStrs hs)}"
+  | .insert r => s!"W insert:{r.hash}"
+
+def outcomeStr : Outcome String → String
+  | .stored r => s!"stored {rowStr r}"
+  | .duplicate => "duplicate"
+  | .rejected => "rejected"
+  | .creationFail => "error:HeaderCreationFail"
+
+def parseHeader (hex : String) : Option (Src String) := (BHS.Sha256.ofHex hex).bind parse
+
+def handle (st : S) : List String → Option (S × String)
+  | ["reset"] => some ({ st with store := [genesisRow] }, "ok")
+  | "forbid" :: hs => some ({ st with forbidden := hs }, "ok")
+  | ["add", hex] =>
+    match parseHeader hex with
+    | none => some (st, "bad-header")
+    | some x =>
+      let p := plan (cfgOf st) st.store x
+      let s' := applyWrites st.store p.2
+      some ({ st with store := s' }, " | ".intercalate (outcomeStr p.1 :: p.2.map writeStr))
+  | ["crash", k, hex] =>
+    match parseHeader hex, k.toNat? with
+    | some x, some k =>
+      let p := plan (cfgOf st) st.store x
+      some ({ st with store := applyWrites st.store (p.2.take k) }, s!"crashed {min k p.2.length}")
+    | _, _ => some (st, "bad-header")
+  | ["restart"] => some ({ st with store := insertRow st.store genesisRow }, "ok")
+  | ["hashof", hex] =>
+    match parseHeader hex with
+    | none => some (st, "bad-header")
+    | some x => some (st, blockHash x)
+  | ["tip"] => some (st, match getTip st.store with | some r => rowStr r | none => "none")
+  | ["state", h] => some (st, match byHash st.store h with | some r => rowStr r | none => "not-found")
+  | ["dump"] => some (st, ";".intercalate (st.store.map rowStr))
+  | ["inv"] =>
+    let c := cfgOf st
+    some (st, s!"wf={decide (WF c st.store)} lcinv={decide (LcInv st.store)} canon={decide (Canon st.store)} struct={decide (StructValid st.store)}")
+  | ["count"] => some (st, toString st.store.length)
+  | _ => none
 
 end Driver.Ops.Chain
